@@ -421,7 +421,7 @@ func main() {
 		rep.Finish()
 	}
 
-	nComp := rep.Pick(160, 2400)
+	nComp := rep.Pick(800, 7000)
 	nQ := rep.Pick(250, 400)
 	workers := runtime.GOMAXPROCS(0)
 	if workers > 12 {
@@ -443,7 +443,11 @@ func main() {
 				var cur []compCase
 				inflight.Range(func(_, v any) bool { cur = append(cur, v.(compCase)); return true })
 				caselog.Log(map[string]any{"in_flight": cur})
+				t0 := time.Now()
 				runComp(rep.Seed, cc, false)
+				if os.Getenv("C03_TIMING") != "" {
+					fmt.Fprintf(os.Stderr, "comp %d %s sockets=%v nq=%d: %v\n", cc.CompIdx, cc.Terminal, cc.Sockets, cc.NQ, time.Since(t0))
+				}
 				inflight.Delete(cc.CompIdx)
 			}
 		}()
